@@ -36,7 +36,10 @@
   HYPOTHESES (as in C05 / C15).
     * `validateMatcher a t = .ok (c, l, r)` resp. `validateCandset a = .ok (c, l, r)`: the validation block accepts
       (characterised by the documented preconditions in `C15.apply_matcher_accepts_iff` / `filter_candset_accepts_iff`);
-    * every candidate key occurs in its table (otherwise KeyError, in Python as in the model);
+    * every candidate key occurs in its table (otherwise KeyError, in Python as in the model) — up to Python
+      equality (`PyMem`) for the column / width theorems; `matcher_rows_are_candset_rows` and `matcher_row_width`
+      are stated for candidate keys IDENTICAL to table keys (for merely Python-equal keys the output row carries,
+      without output attributes, the candidate's own key cells: `C05_keys.lean`);
     * fewer than 2⁴⁰ candidate rows (binary64 precision limit of `split_table`'s chunk boundaries).
     * the candset's first column is its `_id` column (cell 0 of a candidate row), as in every join / filter output.
     * nothing raises in the body: for `apply_matcher` with a tokenizer both match columns hold only strings and missing
@@ -64,8 +67,8 @@ open SSJ SSJ.Props
     requested left and right attributes, `_sim_score` iff `out_sim_score` — whatever columns the candset has. -/
 theorem matcher_columns (a : MatcherArgs) (t : Option TokObj) (toks : TokFn) (sim : SimArg → SimArg → PyV) (cpu : Int)
     (c l r : Frame) (hv : validateMatcher a t = .ok (c, l, r))
-    (hl : ∀ cr ∈ c.rows, cr.cell (c.colIdx a.candLKey) ∈ l.col a.lKey)
-    (hr : ∀ cr ∈ c.rows, cr.cell (c.colIdx a.candRKey) ∈ r.col a.rKey)
+    (hl : ∀ cr ∈ c.rows, PyMem (cr.cell (c.colIdx a.candLKey)) (l.col a.lKey))
+    (hr : ∀ cr ∈ c.rows, PyMem (cr.cell (c.colIdx a.candRKey)) (r.col a.rKey))
     (hlen : c.rows.length < 2 ^ 40)
     (hstr : t.isSome → StrColumn l a.lAttr ∧ StrColumn r a.rAttr) :
     ∃ fr, applyMatcher a t toks sim cpu = .ok fr ∧
@@ -135,7 +138,8 @@ theorem matcher_row_width (a : MatcherArgs) (t : Option TokObj) (toks : TokFn) (
     (hstr : t.isSome → StrColumn l a.lAttr ∧ StrColumn r a.rAttr) :
     ∃ fr, applyMatcher a t toks sim cpu = .ok fr ∧ ∀ row ∈ fr.rows, row.length = fr.columns.length := by
   obtain ⟨fr, kept, hfr, -, hf⟩ := matcher_rows_are_candset_rows a t toks sim cpu c l r hv hl hr hlen hstr
-  obtain ⟨fr', hfr', hcols⟩ := matcher_columns a t toks sim cpu c l r hv hl hr hlen hstr
+  obtain ⟨fr', hfr', hcols⟩ := matcher_columns a t toks sim cpu c l r hv
+    (fun cr hcr => PyMem.of_mem (hl cr hcr)) (fun cr hcr => PyMem.of_mem (hr cr hcr)) hlen hstr
   rw [hfr] at hfr'
   cases Except.ok.inj hfr'
   refine ⟨fr, hfr, ?_⟩
@@ -155,8 +159,8 @@ theorem matcher_row_width (a : MatcherArgs) (t : Option TokObj) (toks : TokFn) (
 /-- COLUMNS of `filter_candset`: the candset's own columns (and dtypes), for every filter. -/
 theorem candset_filter_columns (a : CandsetArgs) (fp : Cell → Cell → Except PyErr Bool) (cpu : Int) (c l r : Frame)
     (hv : validateCandset a = .ok (c, l, r))
-    (hl : ∀ cr ∈ c.rows, cr.cell (c.colIdx a.candLKey) ∈ l.col a.lKey)
-    (hr : ∀ cr ∈ c.rows, cr.cell (c.colIdx a.candRKey) ∈ r.col a.rKey)
+    (hl : ∀ cr ∈ c.rows, PyMem (cr.cell (c.colIdx a.candLKey)) (l.col a.lKey))
+    (hr : ∀ cr ∈ c.rows, PyMem (cr.cell (c.colIdx a.candRKey)) (r.col a.rKey))
     (hlen : c.rows.length < 2 ^ 40)
     (hfp : ∀ ls ∈ l.rows, ∀ rs ∈ r.rows, ∃ b, fp (valOf l a.lAttr ls) (valOf r a.rAttr rs) = .ok b) :
     ∃ fr, filterCandset a fp cpu = .ok fr ∧ fr.columns = c.columns ∧ fr.dtypes = c.dtypes := by
@@ -167,8 +171,8 @@ theorem candset_filter_columns (a : CandsetArgs) (fp : Cell → Cell → Except 
     unchanged (the `_id`, the keys and whatever other columns the candset carries), in candset order. -/
 theorem candset_filter_rows_sublist (a : CandsetArgs) (fp : Cell → Cell → Except PyErr Bool) (cpu : Int) (c l r : Frame)
     (hv : validateCandset a = .ok (c, l, r))
-    (hl : ∀ cr ∈ c.rows, cr.cell (c.colIdx a.candLKey) ∈ l.col a.lKey)
-    (hr : ∀ cr ∈ c.rows, cr.cell (c.colIdx a.candRKey) ∈ r.col a.rKey)
+    (hl : ∀ cr ∈ c.rows, PyMem (cr.cell (c.colIdx a.candLKey)) (l.col a.lKey))
+    (hr : ∀ cr ∈ c.rows, PyMem (cr.cell (c.colIdx a.candRKey)) (r.col a.rKey))
     (hlen : c.rows.length < 2 ^ 40)
     (hfp : ∀ ls ∈ l.rows, ∀ rs ∈ r.rows, ∃ b, fp (valOf l a.lAttr ls) (valOf r a.rAttr rs) = .ok b) :
     ∃ fr, filterCandset a fp cpu = .ok fr ∧ fr.rows.Sublist c.rows := by
